@@ -19,7 +19,9 @@ rule = ("scripts = 'l range <min> <max>' followed by 'l data'/'l run' pairs (run
         "counted per distinct script; second driver part (C++ layer, harness/drvxx_linepart.cpp): linepart::array::"
         "set/apply incl. the merge path and polyline::iterator/part::points over every 1-dimensional sequence up to "
         "length 4 (quick) / 5 (thorough), pairs of sequences for two dimensions, lengths around 65533/131066, and "
-        "random data in up to three dimensions with repeated application; the model driver judges every record list "
+        "random data in up to three dimensions with repeated application, the transformations the library ships "
+        "(layout::graph::transform3 with limits, the default transform::part()) with one-point remainders, empty "
+        "parts and lengths around 65535/65536; the model driver judges every record list "
         "with the multi-dimensional form of the property")
 assumptions = [
     "doubles are exchanged only as dyadic fractions (|numerator| < 2^53, denominator <= 2^60); rounding of arbitrary "
@@ -27,7 +29,8 @@ assumptions = [
     "for the generated operands (numerators < 2^20, denominators <= 2^10) the rounded double quotient and the exact "
     "quotient have the same floor after scaling by 65536",
     "C++ layer: the transformation is a test double of layout::graph::transform3 (part() = mpt_linepart_linear with "
-    "the range of the dimension); polyline::set / apply_data / value_store are not modelled; the C++ sources are "
+    "the range of the dimension), the real layout::graph::transform3 with TransformLimit, or a class inheriting the "
+    "default transform::part(); polyline::set / apply_data / value_store are not modelled; the C++ sources are "
     "compiled into the driver with UBSan's vptr check off (buffers are C objects with a hand-made vtable)",
 ]
 trusted = ["hand-written model MptModel/Impl/Linepart.lean tied to mptplot/values/linepart_*.c by harness/drv_linepart.c"]
@@ -230,6 +233,25 @@ class _XX:
         for n in (65532, 65533, 65534, 65535, 65536, 131066, 131067):
             out.append(("xxlim:%d" % n, ["xl new", "xl set %d" % n, "xl range 0 0 1", "xl data 0 %d*1/2,2,1/2" % (n - 2), "xl apply 0", "xl poly",
                                          "xl range 1 null", "xl data 1 %d*7" % n, "xl apply 1"]))
+        # the transformations the library ships: layout::graph::transform3 (limits) and the default
+        # transform::part(); one-point remainders (length 1, 65535k+1, and 65533k+1 behind set) outside the range,
+        # lengths around 65535/65536 without limits
+        k = 0
+        for tr in ("t3", "plain", "double"):
+            for n in (1, 2, 65534, 65535, 65536, 65537, 131070, 131071, 131072):
+                for last in ("2", "-3", "1/2"):
+                    dat = ("%d*1/2,%s" % (n - 1, last)) if n > 1 else last
+                    out.append(("xxtr:%d" % k, ["xl new", "xl tr " + tr, "xl range 0 0 1", "xl data 0 " + dat, "xl walk 0", "xl apply 0", "xl poly"]))
+                    k += 1
+            for n in (1, 65533, 65534, 131066, 131067):
+                for last in ("7", "1/2"):
+                    dat = ("%d*1/2,%s" % (n - 1, last)) if n > 1 else last
+                    out.append(("xxtrs:%d" % k, ["xl new", "xl tr " + tr, "xl range 0 0 1", "xl data 0 " + dat, "xl set %d" % n, "xl apply 0", "xl poly"]))
+                    k += 1
+        for t in itertools.product(range(5), repeat=3):
+            dat = ",".join(syms[i] for i in t)
+            out.append(("xxt3:%s" % "".join(map(str, t)), ["xl new", "xl tr t3", "xl range 0 %s %s" % (rg[0], rg[1]), "xl data 0 " + dat, "xl walk 0",
+                                                             "xl set 3", "xl apply 0", "xl poly", "xl tr plain", "xl walk 0"]))
         out.append(("xxempty", ["xl new", "xl apply 0", "xl set 0", "xl apply 0", "xl data 0 1,2", "xl apply 0", "xl set 5", "xl apply 0", "xl apply 1",
                                 "xl data 1 1,2,3,4,5,6,7", "xl apply 1", "xl poly", "xl apply 3", "xl set x", "xl data 3 1"]))
         # random: up to three dimensions, repeated application
